@@ -358,12 +358,56 @@ def r5(tree, rep):
     rep.check("C07.R5", "cancelling a negotiation closes its connection", bool(lose) and g.must_pass(lose), site(ca, TR), key="C07.R5:_cancel:lose")
 
 
+def race_discipline(tree, rep, rule="C07.R5"):
+    """_ThereCanBeOnlyOne: contenders may fire synchronously while they are being wired (a peer that finished on our listening
+    socket before connect(), a hint whose endpoint fails at once).  So (a) the set of remaining contenders holds ALL of them before
+    the first callback is attached, (b) every loop whose body can fire a contender walks a copy of that set."""
+    cls = "_ThereCanBeOnlyOne"
+    own, foreign = class_writers(tree, cls, "_remaining")
+    init = tree.func(TR, cls, "__init__")
+    ip = params(init)
+    ok = not foreign and bool(own)
+    for w in own:
+        if w.fn == "__init__" and w.kind == "assign":
+            v = w.value
+            ok = ok and isinstance(v, ast.Call) and dotted(v.func) in ("set", "list") and len(v.args) == 1 and isinstance(v.args[0], ast.Name) \
+                and v.args[0].id in ip
+        elif w.kind in ("call:remove", "call:discard"):
+            pass
+        else:
+            ok = False
+    rep.check(rule, "%s._remaining holds every contender from the constructor on and is only ever shrunk" % cls, ok and any(w.fn == "__init__" for w in own),
+              site(init, TR), key="%s:race:remaining-complete" % rule,
+              what="a contender that fails synchronously while the race is being wired can end the race although others are still to be tried "
+                   "(writers: %s)" % [w.brief() for w in own + foreign])
+    c = tree.cls(TR, cls)
+    n = 0
+    for m in c.body:
+        if not isinstance(m, ast.FunctionDef):
+            continue
+        for lp in [x for x in ast.walk(m) if isinstance(x, ast.For)]:
+            touches = any(is_self_attr(x, "_remaining") for x in ast.walk(lp.iter))
+            fires = any(isinstance(x, ast.Call) and isinstance(x.func, ast.Attribute) and x.func.attr in (
+                "addCallback", "addCallbacks", "addBoth", "addErrback", "cancel", "callback", "errback") for b in lp.body for x in ast.walk(b))
+            if touches and fires:
+                n += 1
+                it = lp.iter
+                copied = isinstance(it, ast.Call) and dotted(it.func) in ("list", "tuple", "sorted", "set", "frozenset") and len(it.args) == 1
+                rep.check(rule, "%s.%s walks a copy of _remaining while it attaches callbacks / cancels" % (cls, m.name), copied, site(lp, TR),
+                          key="%s:race:iterate-copy:%s" % (rule, m.name),
+                          what="%s.%s iterates self._remaining itself while its body can fire a contender, which removes it from that set "
+                               "(RuntimeError: Set changed size during iteration escapes connect())" % (cls, m.name))
+    if n < 2:
+        raise AnalysisError("%s: fewer loops over _remaining than expected (%d)" % (cls, n))
+
+
 def run(tree, rep, tier):
     r1(tree, rep)
     r2(tree, rep)
     r3(tree, rep)
     r4(tree, rep)
     r5(tree, rep)
+    race_discipline(tree, rep)
 
 
 MUTANTS = [
